@@ -905,14 +905,17 @@ std::size_t QuadraticModelBase<bias_type, index_type>::remove_interactions(Filte
     index_type u = 0;
     for (auto& n : *adj_ptr_) {
         auto it = std::remove_if(n.begin(), n.end(),
-                                 [&u, &filter](const OneVarTerm<bias_type, index_type>& term) {
+                                 [&u, &filter, &num_removed](
+                                         const OneVarTerm<bias_type, index_type>& term) {
                                      const index_type& v = term.v;
                                      const bias_type& bias = term.bias;
                                      assert(filter(u, v, bias) == filter(v, u, bias));
-                                     return filter(u, v, bias);
+                                     if (!filter(u, v, bias)) return false;
+                                     // self-loops are stored once, every other
+                                     // interaction in both neighborhoods
+                                     num_removed += (u == v) ? 2 : 1;
+                                     return true;
                                  });
-
-        num_removed += n.end() - it;
 
         n.erase(it, n.end());
 
